@@ -9,6 +9,10 @@ import Driver.OpsTensor
 import Driver.OpsLearn
 import Driver.OpsSched
 import Driver.OpsXpc
+import Driver.OpsLearnTerm
+import Driver.OpsCnetLearn
+import Driver.OpsF32
+import Driver.OpsRatSample
 /-
 Line-protocol driver: one JSON object per input line, one answer line per input line.
 Run with `lake env lean --run Driver/Main.lean < ops.jsonl`.
@@ -76,7 +80,11 @@ def handle (st : St) (j : Json) : Except String (St × String) := do
       handleTensor o j,
       handleLearn o j,
       handleSched st.net st.root o j,
-      handleXpc o j ]
+      handleXpc o j,
+      handleLearnTerm o j,
+      handleCnetLearn o j,
+      handleF32 o j,
+      handleRatSample o j ]
     match exts.findSome? id with
     | some r => do let a ← r; pure (st, a)
     | none => .error s!"unknown op {o}"
